@@ -3,7 +3,7 @@
 Families:
   magic    every registered function name (MagicResolver attributes, '#'-parser functions, dummy resolvers, magic_nodes.registry,
            and every alias of those names in the magicwords of all 12 bundled sites) x argument count 0..2 (quick) / 0..3 (thorough,
-           reduced shape list for count 3) x 23 argument shapes, colon form and pipe form
+           reduced shape list for count 3) x 28 argument shapes, colon form and pipe form
   cycles   all universes of <=2 (quick) / <=3 (thorough) templates whose bodies are sequences of <=2 call/parameter items: every call
            graph incl. self loops and 2-/3-cycles
   syntax   every string over the 24-symbol template alphabet up to length 4 (quick) / 5 (thorough)
@@ -16,7 +16,9 @@ from mc.core.space import Seqs, Product, Concat, Items, Space
 from mc.props.c01 import LangDB
 
 SHAPES = ["", "a", " a ", "0", "1", "-1", "1.5", "1e3", "99999999", "99999999999999999999", "a/b/c", "../x", "{{PAGENAME}}",
-          "{{{1}}}", "a=b", "<b>", "9^9^9^9", "1e999999999", "2^0.5^-1", "1/0", "5 round -99999999", "xrY", "5000-01-01"]
+          "{{{1}}}", "a=b", "<b>", "9^9^9^9", "1e999999999", "2^0.5^-1", "1/0", "5 round -99999999", "xrY", "5000-01-01",
+          # text shapes that make a careless pattern backtrack: long white-space / repeated-token runs inside a tag or attribute
+          '<span class="' + " " * 40 + 'x">t</span>', '<div class="error' + " \t" * 20 + 'y">t</div>', "<strong " + "a " * 40 + ">t", "&" + "amp" * 40, "[[" + "a|" * 40]
 SHAPES3 = ["", "a", "1", "99999999", "a=b"]
 SIGMA_T = ["{{", "}}", "{{{", "}}}", "{", "}", "|", "=", ":", "#if:", "#switch:", "a", " ", "\n", "[[", "]]", "<noinclude>",
            "</noinclude>", "<includeonly>", "</includeonly>", "<onlyinclude>", "</onlyinclude>", "<nowiki>", "</nowiki>"]
@@ -88,7 +90,7 @@ class C03(InputProp):
     id = "C03"
     rule = ("families magic/alias/cycles/syntax (see mc/props/c03.py), each enumerated completely on Expander(text, pagename, wikidb)."
             "expandTemplates(); distinct = distinct (family, outcome text) classes")
-    assumptions = ("argument shapes are a fixed list of 23 (5 for the third argument)",
+    assumptions = ("argument shapes are a fixed list of 28 (5 for the third argument)",
                    "the 'out of proportion' clause is judged as: CPU <= 2 s and output <= 64 x input + 4096 characters per expansion")
     chunk = 2000
     soft_timeout = 20.0
